@@ -153,7 +153,7 @@ def run_one(choices, params):
     cfg.frag_fixed = 1000 + c.draw(30000)
     cfg.send_frag = c.pick(("whole", "random"))
     strat = ("rtb",)
-    chunk = w.pick((1, 2, 7, 64, 4096, 64000))
+    chunk = w.pick((1, 2, 7, 64, 4096, 64000, 255, 256, 257, 1 + w.draw(700)))     # (lengths around the serializer's size classes too)
     direction = w.pick(("upload", "download"))
     fkind = w.pick(sorted(FILTERS))
     flt = FILTERS[fkind]
